@@ -37,4 +37,5 @@ def run(prog: Program, col: Collector, tier: str, refs: Optional[Refs] = None, c
     numerics.run(prog, col, refs, cat, rule_log="R08.9", rule_safe=None)
     algebra.r_operand_multiplicity(prog, col, refs, cat, "R08.10")
     algebra.r_absent_vars_kernel(prog, col, refs, cat, "R08.11")
+    algebra.r_exact_counts(prog, col, refs, cat, "R08.12")
     return col
